@@ -28,11 +28,12 @@ def _hash_inputs(units_text):
     return h.hexdigest()[:16]
 
 
-def build_runner(tier):
-    """returns (path of erun, error)"""
-    rc, out = sh([os.path.join(ROOT, "bin", "mldrv"), "emitunits"], timeout=900)
+def build_runner(tier, unitsdrv="emitunits"):
+    """returns (path of erun, error).  unitsdrv: the extracted generator printing the unit lines the runner links
+    (default: the shared emit units of Gen/Shapes.v; a check may bring a few units of its own)"""
+    rc, out = sh([os.path.join(ROOT, "bin", "mldrv"), unitsdrv], timeout=900)
     if rc != 0:
-        return None, "mldrv emitunits: " + out[-500:]
+        return None, "mldrv %s: %s" % (unitsdrv, out[-500:])
     hdir = os.path.join(ROOT, "harness")
     cmd = ["go", "build", "-o", os.path.join(ROOT, "build", "genrun")]
     if _repo() != "/repo":
@@ -46,12 +47,13 @@ def build_runner(tier):
     if rc != 0:
         return None, "go build genrun (does /repo still compile?): " + out[-2000:]
     tiern = "0" if tier == "quick" else "1"
-    p = subprocess.run("ulimit -s unlimited 2>/dev/null; %s %s 1" % (os.path.join(ROOT, "build", "modeldrv_emitunits"), tiern),
+    p = subprocess.run("ulimit -s unlimited 2>/dev/null; %s %s 1" % (os.path.join(ROOT, "build", "modeldrv_" + unitsdrv), tiern),
                        shell=True, stdout=subprocess.PIPE, stderr=subprocess.PIPE)
     if p.returncode != 0:
-        return None, "modeldrv_emitunits failed"
+        return None, "modeldrv_%s failed" % unitsdrv
     units = p.stdout.decode()
-    key = tiern + "-" + _hash_inputs(units)
+    pfx = tiern if unitsdrv == "emitunits" else unitsdrv + tiern     # one cached runner per (unit set, tier)
+    key = pfx + "-" + _hash_inputs(units)
     edir = os.path.join(CACHE, "emit")
     root = os.path.join(edir, key)
     erun = os.path.join(root, "erun")
@@ -59,7 +61,7 @@ def build_runner(tier):
         return erun, None
     os.makedirs(edir, exist_ok=True)
     for old in os.listdir(edir):           # keep only the latest runner per tier
-        if old.startswith(tiern + "-"):
+        if old.startswith(pfx + "-"):
             shutil.rmtree(os.path.join(edir, old), ignore_errors=True)
     os.makedirs(root)
     open(os.path.join(root, "units.txt"), "w").write(units)
@@ -77,11 +79,11 @@ def build_runner(tier):
     return erun, None
 
 
-def emit_stream(name, drv, **kw):
+def emit_stream(name, drv, unitsdrv="emitunits", **kw):
     st = Stream(name, drv=drv, sub=name, **kw)
 
     def prepare(tier, seed):
-        erun, err = build_runner(tier)
+        erun, err = build_runner(tier, unitsdrv)
         if err:
             return err
         st.cmd = erun + " < {cases} > {obs}"
